@@ -24,7 +24,7 @@ DEFAULT_OPTS = {
     "p_default": 0.35,  # probability that an optional child slot is omitted (default argument used)
     "max_num": 8,
     "max_coll": 3,
-    "bag_ranges": ["N", "S", "N2"],
+    "bag_ranges": ["N", "S", "N2", "N3"],
     "cut_fields": ["c", "b"],
     "root": None,  # force a root primitive
     "count_transform": 0.0,
@@ -47,7 +47,7 @@ class _Budget:
 
 def _gen_q(rng, field, opts, counter):
     kind = rng.wpick(opts["qkinds"])
-    if field == "xy" and kind in ("str", "selfc", "selfg"):
+    if field in ("xy", "xyc") and kind in ("str", "selfc", "selfg"):
         kind = "lambda"
     q = {"f": field, "kind": kind}
     if kind == "str":
@@ -126,7 +126,7 @@ def _gen_params(rng, p, opts):
 
 def _field_for(rng, p, params, opts):
     if p == "Bag":
-        return {"N": rng.pick(["x", "y"]), "S": "t", "N2": "xy"}[params["range"]]
+        return {"N": rng.pick(["x", "y"]), "S": "t", "N2": "xy", "N3": "xyc"}[params["range"]]
     if p == "Categorize":
         return "s"
     if p in ("Select", "Fraction"):
@@ -164,6 +164,9 @@ def gen_spec(rng, opts=None, depth=None, budget=None, counter=None, force=None):
         return s
     params = _gen_params(rng, p, opts)
     s.update(params)
+    if opts.get("p_via", 0.25) and rng.chance(opts.get("p_via", 0.25)):
+        # build through the `ing` synonym or, where the shape allows it, a convenience constructor
+        s["via"] = rng.pick(["ing", "conv"])
     if p in HAS_Q:
         s["q"] = _gen_q(rng, _field_for(rng, p, params, opts), opts, counter)
     if p in LEAVES:
@@ -364,6 +367,44 @@ def build(s, _ctr=None, refs=None, qreg=None):
     if "explicit" in s:
         pairs = [(dec_float(e), build(c, _ctr, refs, qreg)) for e, c in s["explicit"]]
         return getattr(hg, p)(pairs, q, None)
+    via = s.get("via")
+    if via == "conv":
+        # convenience constructors cover only certain shapes; fall back to `ing` otherwise
+        plain = all(s.get(k) is None for k in ("underflow", "overflow", "nanflow"))
+        v = s.get("value")
+        if p == "Bin" and plain and v is None:
+            return hg.Histogram(s["num"], s["low"], s["high"], q)
+        if p == "SparselyBin" and plain and v is None:
+            return hg.SparselyHistogram(s["binWidth"], q, s["origin"])
+        if p == "Bin" and plain and v is not None and v["p"] in ("Average", "Deviate") and len(kw) == 1:
+            inner = kw["value"].quantity
+            return (hg.Profile if v["p"] == "Average" else hg.ProfileErr)(s["num"], s["low"], s["high"], q, inner)
+        if p == "SparselyBin" and plain and v is not None and v["p"] in ("Average", "Deviate") and len(kw) == 1:
+            inner = kw["value"].quantity
+            return (hg.SparselyProfile if v["p"] == "Average" else hg.SparselyProfileErr)(s["binWidth"], q, inner, s["origin"])
+        via = "ing"
+    if via == "ing" and p in ("Sum", "Average", "Deviate", "Minimize", "Maximize", "Bin", "SparselyBin", "CentrallyBin", "IrregularlyBin", "Stack",
+                              "Categorize", "Select", "Fraction"):
+        Count = hg.Count
+        if p in ("Sum", "Average", "Deviate", "Minimize", "Maximize"):
+            return getattr(hg, p).ing(q)
+        if p == "Bin":
+            return hg.Bin.ing(s["num"], s["low"], s["high"], q, kw.get("value", Count()), kw.get("underflow", Count()), kw.get("overflow", Count()),
+                              kw.get("nanflow", Count()))
+        if p == "SparselyBin":
+            return hg.SparselyBin.ing(s["binWidth"], q, kw.get("value", Count()), kw.get("nanflow", Count()), s["origin"])
+        if p == "CentrallyBin":
+            return hg.CentrallyBin.ing(list(s["centers"]), q, kw.get("value", Count()), kw.get("nanflow", Count()))
+        if p == "IrregularlyBin":
+            return hg.IrregularlyBin.ing(list(s["edges"]), q, kw.get("value", Count()), kw.get("nanflow", Count()))
+        if p == "Stack":
+            return hg.Stack.ing(list(s["thresholds"]), q, kw.get("value", Count()), kw.get("nanflow", Count()))
+        if p == "Categorize":
+            return hg.Categorize.ing(q, kw.get("value", Count()))
+        if p == "Select":
+            return hg.Select.ing(q, kw["cut"]) if "cut" in kw else hg.Select.ing(q)
+        if p == "Fraction":
+            return hg.Fraction.ing(q, kw.get("value", Count()))
     if p in ("Sum", "Average", "Deviate", "Minimize", "Maximize"):
         return getattr(hg, p)(q)
     if p == "Bag":
@@ -475,6 +516,28 @@ def gen_record(rng, crit, opts=None):
         else:
             v = rng.pick(PLAIN)
         rec[f] = v
+    if opts.get("exotic_types", True) and rng.chance(0.12):
+        # the same value in another numeric type: quantities may return ints, bools and numpy scalars
+        import numpy as np
+
+        f = rng.pick(["x", "y"])
+        v = rec[f]
+        if isinstance(v, float) and v == v and abs(v) != math.inf:
+            # (np.float32 is not used: a float32 quantity makes the library accumulate in single precision, which is
+            # rounding, not a defect, and would need float32 tolerances)
+            kind = rng.pick(["int", "npf64", "npi64", "bool", "negzero"])
+            if kind == "int" and v == int(v):
+                rec[f] = int(v)
+            elif kind == "npf64":
+                rec[f] = np.float64(v)
+            elif kind == "npi64" and v == int(v):
+                rec[f] = np.int64(int(v))
+            elif kind == "npf32" and float(np.float32(v)) == v:
+                rec[f] = np.float32(v)
+            elif kind == "bool" and v in (0.0, 1.0):
+                rec[f] = bool(v)
+            elif kind == "negzero" and v == 0.0:
+                rec[f] = -0.0
     rec["c"] = rng.pick(CUTS[2:]) if opts.get("numeric_cuts") else rng.pick(CUTS)
     rec["b"] = rng.chance(0.6)
     rec["t"] = rng.pick(STRINGS)
@@ -486,6 +549,12 @@ def gen_record(rng, crit, opts=None):
 
 
 def enc_float(v):
+    import numpy as np
+
+    if isinstance(v, np.generic):
+        return {"np": type(v).__name__, "v": enc_float(v.item())}
+    if isinstance(v, float) and v == 0.0 and math.copysign(1.0, v) < 0:
+        return {"np": "negzero", "v": 0.0}
     if isinstance(v, float):
         if v != v:
             return "nan"
@@ -497,6 +566,12 @@ def enc_float(v):
 
 
 def dec_float(v):
+    if isinstance(v, dict) and "np" in v:
+        import numpy as np
+
+        if v["np"] == "negzero":
+            return -0.0
+        return getattr(np, v["np"])(dec_float(v["v"]))
     if v == "nan":
         return float("nan")
     if v == "inf":
